@@ -95,7 +95,12 @@ impl Lowerer<'_, '_> {
         // The easy case, we don't need to clone this.
         if !self.needs_clone(ty) {
             let size = self.layout_of(ty).unwrap().size() as u32;
-            self.emit_memcpy(to.into(), from.into(), size);
+            // Zero-sized values have no storage: the variables involved may
+            // not even exist in the generated code, so there is nothing to
+            // copy.
+            if size > 0 {
+                self.emit_memcpy(to.into(), from.into(), size);
+            }
             return;
         }
 
